@@ -233,7 +233,11 @@ func TestC12Plasma(t *testing.T) {
 			default:
 				tpl.ToAddress = types.PlasmaContract
 				tpl.TokenStandard = types.QsrTokenStandard
-				tpl.Amount = big.NewInt(10 * sim.Zexp)
+				if c.Weighted("cp.fuseToken", 3, 1) == 1 {
+					// plasma comes from fused QSR only: the same call paid in another token
+					tpl.TokenStandard = h.Pools.Tokens[c.Pick("cp.fuseTokenIdx", len(h.Pools.Tokens))]
+				}
+				tpl.Amount = big.NewInt(int64([]int{10, 10, 50, 5000}[c.Pick("cp.fuseAmt", 4)]) * sim.Zexp)
 				tpl.Data = fuseData(h.Users[c.Pick("cp.ben", len(h.Users))])
 			}
 			base := uint64(refTxPlasma + refBytePlasma*len(tpl.Data))
@@ -277,6 +281,51 @@ func TestC12Plasma(t *testing.T) {
 				c.Class("block-with-pow-accepted")
 			}
 		}
+		// a block delivered from outside (peer / RPC) whose fields outside the hash are chosen by the sender: it pays
+		// less than its cost and states a base cost (and total) to match
+		forgedBase := func() {
+			from := h.Users[c.Pick("fb.from", len(h.Users))]
+			kp := h.W.Keys.ByAddr[from]
+			tpl := &nom.AccountBlock{Address: from, BlockType: nom.BlockTypeUserSend, ToAddress: h.Users[c.Pick("fb.to", len(h.Users))], TokenStandard: types.ZnnTokenStandard,
+				Amount: big.NewInt(int64(c.Int("fb.amt", 0, 5)))}
+			if c.Bool("fb.data") {
+				tpl.Data = c.Bytes("fb.databytes", 1, 400)
+			}
+			var tx *nom.AccountBlockTransaction
+			var err error
+			func() {
+				defer func() {
+					if r := recover(); r != nil {
+						err = fmt.Errorf("%v", r)
+					}
+				}()
+				tx, err = h.A.Sup.GenerateFromTemplate(tpl, kp.Signer)
+			}()
+			if err != nil || tx == nil {
+				return
+			}
+			b := tx.Block.Copy()
+			true0 := b.FusedPlasma
+			b.FusedPlasma = []uint64{0, 1, true0 / 2, true0 - 1}[c.Pick("fb.fused", 4)]
+			b.BasePlasma = []uint64{1, b.FusedPlasma, b.FusedPlasma + 1, true0}[c.Pick("fb.base", 4)]
+			b.TotalPlasma = []uint64{b.FusedPlasma, b.BasePlasma, true0}[c.Pick("fb.total", 3)]
+			sim.ResignBlock(b, kp)
+			custom++
+			var wire *nom.AccountBlock
+			if c.Bool("fb.rpc") {
+				if wire, err = sim.ViaPublishJSON(h.A, b); err != nil {
+					return
+				}
+			} else if wb, err := sim.WireBlocks([]*nom.AccountBlock{b}); err == nil {
+				wire = wb[0]
+			} else {
+				return
+			}
+			if ntx, err := h.A.Sup.ApplyBlock(wire); err == nil {
+				h.A.CreateAccountBlock(ntx)
+				c.Note("block paying %d fused plasma instead of %d (stated base %d, total %d) accepted", b.FusedPlasma, true0, b.BasePlasma, b.TotalPlasma)
+			}
+		}
 		inv := func() {
 			if h.Dead {
 				return
@@ -284,6 +333,16 @@ func TestC12Plasma(t *testing.T) {
 			l, err := sim.Scan(h.A)
 			if err != nil {
 				c.Failf("C12/scan-error", "%v", err)
+			}
+			// what gives plasma is fused QSR: the plasma contract holds at least the QSR its fusion entries record
+			if fus, _, err := sim.AllFusions(h.A); err == nil {
+				sum := new(big.Int)
+				for _, f := range fus {
+					sum.Add(sum, f.Amount)
+				}
+				if bal := h.Balance(types.PlasmaContract, types.QsrTokenStandard); bal.Cmp(sum) < 0 {
+					c.Failf("C12/fusions-without-qsr", "the fusion entries (source of plasma) add up to %v, the plasma contract holds only %v QSR: plasma was given for something else than fused QSR", sum, bal)
+				}
 			}
 			for _, a := range l.Accounts {
 				pooled := 0
@@ -306,6 +365,7 @@ func TestC12Plasma(t *testing.T) {
 		acts["customPlasma"] = custPlasma
 		acts["customPlasma2"] = custPlasma
 		acts["customPlasma3"] = custPlasma
+		acts["forgedBase"] = forgedBase
 		c.Repeat(acts, inv)
 		if sawMulti {
 			c.Class(">=2-unconfirmed-blocks-before-candidate")
